@@ -188,6 +188,7 @@ func cmdCheck(argv []string) int {
 	var engineErrs []string
 	assumed := map[string]int{}
 	execs := map[string]*FnExec{}
+	ctxs := map[string]*savedCtx{}
 	for _, k := range keys {
 		fn := P.fnByKey[k]
 		if fn == nil || len(fn.Blocks) == 0 {
@@ -225,15 +226,22 @@ func cmdCheck(argv []string) int {
 		all = append(all, pre)
 		all = append(all, e.obls...)
 		pre.Script = pre.script(false)
+		n := 0
+		if v := e.con.Opts["split"]; v != "" {
+			fmt.Sscan(v, &n)
+		}
 		for _, o := range e.obls {
-			if o.Result != "trivial" {
-				n := 0
-				if v := e.con.Opts["split"]; v != "" {
-					fmt.Sscan(v, &n)
-				}
+			if o.Result == "trivial" {
+				continue
+			}
+			o.split = n
+			if o.Cover {
 				o.prepare(n)
+			} else {
+				o.prepareA()
 			}
 		}
+		ctxs[e.key] = saveGlobals()
 		for a, n := range e.assumed {
 			assumed[a] += n
 		}
@@ -253,24 +261,88 @@ func cmdCheck(argv []string) int {
 			engineErrs = append(engineErrs, fmt.Sprintf("lemma %s: %v", l.Name, err))
 			continue
 		}
-		o.prepare(0)
+		o.prepareA()
+		ctxs[o.Func] = saveGlobals()
 		all = append(all, o)
 	}
 	genS := time.Since(start).Seconds() - loadS
 
-	// solve
-	var wg sync.WaitGroup
+	// solve: stage A (no instances) for everything, then stage B (goal-directed instances) and the
+	// full query (all instances, case split, solver race) for what is left. Term construction is
+	// single-threaded, so each stage is prepared here and solved in the background.
 	sem := make(chan struct{}, max(2, runtime.NumCPU()*2/3))
-	for i, o := range all {
-		wg.Add(1)
-		sem <- struct{}{}
-		go func(i int, o *Obligation) {
-			defer wg.Done()
-			defer func() { <-sem }()
-			o.solve(*tier, i)
-		}(i, o)
+	runStage := func(obls []*Obligation, f func(i int, o *Obligation)) {
+		var wg sync.WaitGroup
+		for i, o := range obls {
+			wg.Add(1)
+			sem <- struct{}{}
+			go func(i int, o *Obligation) {
+				defer wg.Done()
+				defer func() { <-sem }()
+				f(i, o)
+			}(i, o)
+		}
+		wg.Wait()
 	}
-	wg.Wait()
+	idxOf := map[*Obligation]int{}
+	for i, o := range all {
+		idxOf[o] = i
+	}
+	var stageA, direct []*Obligation
+	for _, o := range all {
+		switch {
+		case o.Result == "trivial":
+			o.Solver = "simplifier"
+		case o.ScriptA != "":
+			stageA = append(stageA, o)
+		default:
+			direct = append(direct, o)
+		}
+	}
+	var directWG sync.WaitGroup
+	directWG.Add(1)
+	go func() {
+		defer directWG.Done()
+		runStage(direct, func(_ int, o *Obligation) { o.solve(*tier, idxOf[o]) })
+	}()
+	runStage(stageA, func(_ int, o *Obligation) { o.solveStage("A", *tier, idxOf[o]) })
+	var stageB []*Obligation
+	t1 := time.Now()
+	for _, o := range stageA {
+		if o.Result != "unsat" {
+			if c := ctxs[o.Func]; c != nil {
+				restoreGlobals(c)
+			}
+			o.prepareB()
+			stageB = append(stageB, o)
+		}
+	}
+	genS += time.Since(t1).Seconds()
+	runStage(stageB, func(_ int, o *Obligation) { o.solveStage("B", *tier, idxOf[o]) })
+	var stageC []*Obligation
+	t1 = time.Now()
+	// prepare and launch the full queries one by one (preparation is the serial part)
+	var cWG sync.WaitGroup
+	for _, o := range stageB {
+		if o.Result == "unsat" {
+			continue
+		}
+		if c := ctxs[o.Func]; c != nil {
+			restoreGlobals(c)
+		}
+		o.prepare(o.split)
+		stageC = append(stageC, o)
+		cWG.Add(1)
+		sem <- struct{}{}
+		go func(o *Obligation) {
+			defer cWG.Done()
+			defer func() { <-sem }()
+			o.solve(*tier, idxOf[o])
+		}(o)
+	}
+	genS += time.Since(t1).Seconds()
+	cWG.Wait()
+	directWG.Wait()
 
 	// classify
 	known := loadKnown(filepath.Join(*verif, "known_findings.txt"))
@@ -471,7 +543,7 @@ func writeEvidence(verif, prop, tier string, seed int, wall, loadS, genS, solver
 		"pointer receivers are non-nil (asserted at every contracted call site)",
 		"goroutines, channel contents and select readiness are not modelled; lock acquisition has no effect on data",
 		"make/new of slices: element contents unconstrained rather than zero",
-		"existing slices hold at most 2^46 elements; make() beyond 2^47 elements is a panic obligation, smaller allocations are assumed to succeed (memory exhaustion is not modelled)")
+		"existing slices hold at most 2^46 elements; make() beyond 2^48 elements is a panic obligation, smaller allocations are assumed to succeed (memory exhaustion is not modelled)")
 	var fnames []string
 	for _, f := range freps {
 		fnames = append(fnames, f.Key)
